@@ -359,10 +359,33 @@ def _kernel_nf_worker(sub, c):
             bad.append((type(k.coeff).__module__.split(".", 2)[2] + "." + type(k.coeff).__name__ + " incoming quarks", [p_ for p_ in pids if p_ <= 6], f"<= {comb.nf}"))
         if fam == "heavy" and type(k.coeff).__name__.startswith("Singlet") and pids != list(range(1, comb.nf + 1)):
             bad.append((type(k.coeff).__name__ + " partons", pids, list(range(1, comb.nf + 1))))
+    # the flavour average in the gluon / singlet / valence weights of the light family runs over exactly the
+    # nf active quarks (the light gluon and singlet coefficients carry the matching factor nf): the singlet
+    # and valence weights span the quarks 1..nf, each equal (up to the sign of the valence) to the gluon
+    # weight, and in EM/NC the gluon weight is the sum of the quark weights of its non-singlet partner / nf
+    for i, k in enumerate(ks):
+        if type(k.coeff).__module__.split(".")[2] != "light":
+            continue
+        cn = type(k.coeff).__name__
+        prev = ks[i - 1] if i else None
+        prev_light = prev is not None and type(prev.coeff).__module__.split(".")[2] == "light"
+        if cn == "Gluon" and c["process"] != "CC":
+            if not (prev_light and type(prev.coeff).__name__.startswith("NonSinglet")):
+                bad.append(("light Gluon without its non-singlet partner", None, None))
+            else:
+                g, tot = float(k.partons[21]), sum(float(v) for v in prev.partons.values()) / 2
+                if abs(g * comb.nf - tot) > 1e-12 * max(1.0, abs(tot)):
+                    bad.append(("light Gluon weight x nf", g * comb.nf, f"sum of the quark weights {tot}"))
+        if cn in ("Singlet", "Valence"):
+            span = sorted(p_ for p_ in k.partons if p_ > 0)
+            if span != list(range(1, comb.nf + 1)) or sorted(-p_ for p_ in k.partons if p_ < 0) != span:
+                bad.append((f"light {cn} quarks", sorted(k.partons), f"+-1..+-{comb.nf}"))
+            if prev_light and type(prev.coeff).__name__ == "Gluon" and any(abs(abs(float(v)) - abs(float(prev.partons[21]))) > 1e-12 for v in k.partons.values()):
+                bad.append((f"light {cn} weights", sorted(set(float(v) for v in k.partons.values())), f"+-{float(prev.partons[21])} (the gluon weight)"))
     wrong_fl11 = sorted({n for n in fl11_nfs if n != comb.nf})
     if wrong_fl11:
         bad.append(("get_fl11_weight(nf=...)", wrong_fl11, comb.nf))
-    sub.add(ob_eval(name + f"/every kernel is built with nf={comb.nf} (heavy-quark-initiated ones with ihq-1); heavy singlet weights span the nf light quarks; incoming quarks of every other kernel are among the nf active ones; the flavour trace of the fl11 weights runs over nf", comb.nf == c["nf"] and not bad, detail=f"{len(ks)} kernels" + (f"; offending (class, nf used, nf expected): {bad[:4]}" if bad else ""), inputs={} if not bad else {"cell": H.cell_name(c), "offending": str(bad[:4])}))
+    sub.add(ob_eval(name + f"/every kernel is built with nf={comb.nf} (heavy-quark-initiated ones with ihq-1); heavy singlet weights span the nf light quarks; incoming quarks of every other kernel are among the nf active ones; the flavour averages of the light gluon / singlet / valence weights and the flavour trace of the fl11 weights run over nf", comb.nf == c["nf"] and not bad, detail=f"{len(ks)} kernels" + (f"; offending (class, nf used, nf expected): {bad[:4]}" if bad else ""), inputs={} if not bad else {"cell": H.cell_name(c), "offending": str(bad[:4])}))
 
 
 def sec_kernel_nf(rep, tier):
@@ -507,7 +530,7 @@ def run(rep, tier, seed, only=None):
         "floats as reals: the threshold is by definition the computed double m^2*k^2, only comparisons follow",
         "Runner.__init__ is run for real (eko interpolator, Atlas); symbolic masses only in ZM-VFNS (other schemes multiply by inf thresholds)",
     )
-    for nm, f in (("update_fns", sec_update_fns), ("runner", sec_runner_atlas), ("nf", sec_nf), ("sv", sec_sv_nf), ("svhistory", sec_sv_history), ("readset", sec_readset), ("kernelnf", lambda r: sec_kernel_nf(r, tier)), ("realruns", lambda r: sec_real_runs(r, tier))):
+    for nm, f in (("update_fns", sec_update_fns), ("runner", sec_runner_atlas), ("nf", sec_nf), ("sv", sec_sv_nf), ("svhistory", sec_sv_history), ("svoperators", lambda r: __import__("contracts.c05", fromlist=["x"]).sec_compute_raw(r)), ("readset", sec_readset), ("kernelnf", lambda r: sec_kernel_nf(r, tier)), ("realruns", lambda r: sec_real_runs(r, tier))):
         if only and only not in nm:
             continue
         rep.add(guarded(f"C06/{nm}", lambda f=f: (f(rep), [])[1]))
